@@ -31,12 +31,16 @@ def floors(tier):
 
 def plan(seed, tier):
     n = 10 if tier == "quick" else 100
-    return [{"id": f"route-{seed}-{i}", "seed": seed * 100003 + i} for i in range(n)]
+    cases = [{"id": f"route-{seed}-{i}", "seed": seed * 100003 + i} for i in range(n)]
+    # the whole API moved into a proto sub-package (next to a sibling sub-package): nothing about the property changes
+    cases += [{"id": f"route-sub-{seed}-{i}", "seed": seed * 100003 + 6000 + i, "subpkg": True} for i in range(2 if tier == "quick" else 10)]
+    return cases
 
 
 def build_api(case):
     rng = random.Random(case["seed"])
-    return apigen.routing_api(rng, "g%d" % (case["seed"] % 100000))
+    api = apigen.routing_api(rng, "g%d" % (case["seed"] % 100000))
+    return apigen.into_subpackage(api) if case.get("subpkg") else api
 
 
 def sample_tmpl(rng, tmpl, escape=False):
@@ -161,7 +165,7 @@ def run_case(case):
                           "pages": pages, "path": f"/{p.package}.{s.name}/{m.name}",
                           "request": rdm.b64(msg.SerializeToString()), "expected": exp, "kind": kind, "classes": classes,
                           "rest": rest_ok, "form": (api.info.get("explicit", {}).get(m.name) or api.info.get("implicit", {}).get(m.name) or m.name)})
-    script = {"root_pkg": apigen.lib_root(api.info, api.options), "calls": calls}
+    script = {"root_pkg": apigen.runner_root(api), "calls": calls}
     ev, rc, err = pipeline.run_runner("checks.c06", script, lib, timeout=300)
     if ev is None or "runner_crash" in ev or "library_import_error" in ev:
         return pipeline.runner_failed_result(ev, rc, err, api)
